@@ -11,12 +11,15 @@ package main
 //   tree parents=<p0,p1,..> [bits=<hex,..>]          parent -1 = genesis; parent index < own index
 //   node path=<idx,..> pos=<k> cap=<n> dir=out|in honest=0|1 [closeat=<k>] [stallat=<k>] [nostop=1]
 //   step connect <node> | serve <node> | run | announce <node> inv|invx|headers <k> | push <node> inv|headers <idx,..>
-//        | close <node> | stall <node> | tick <seconds> | settle
+//        | close <node> | stall <node> | tick <seconds> | settle | hitrun <node> <idx,..>
 //
 // cps / init / forbid / path / push refer to tree indices. A node's best chain is path[:pos];
 // `announce n inv k` moves pos forward by k and announces the new blocks; `invx` announces them in ONE inv message that
 // also carries the (already announced) blocks before them and non-block (tx) entries before and after;
 // `nostop=1` makes a (misbehaving) node ignore the stop hash of getheaders.
+// `hitrun n idx,..` (default engine, serial): while the manager is held busy, node n sends ONE headers message with these
+// headers and closes its socket at once; the service-side peer has read the message (it is queued for the manager) and
+// seen the end of the stream before the manager gets to it; the done message follows as its own event.
 
 import (
 	"crypto/sha256"
@@ -165,6 +168,8 @@ func (s *scn) Ops() []string {
 			ops = append(ops, fmt.Sprintf("step announce %d %s %d", st.Node, st.How, st.N))
 		case "push":
 			ops = append(ops, fmt.Sprintf("step push %d %s %s", st.Node, st.How, compactInts(st.Idx)))
+		case "hitrun":
+			ops = append(ops, fmt.Sprintf("step hitrun %d %s", st.Node, compactInts(st.Idx)))
 		default:
 			ops = append(ops, fmt.Sprintf("step %s %d", st.Kind, st.Node))
 		}
@@ -330,6 +335,14 @@ func parseScn(ops []string) (*scn, error) {
 				st.Node, _ = strconv.Atoi(ws[2])
 				st.How = ws[3]
 				if st.Idx, err = parseInts(ws[4]); err != nil {
+					return nil, err
+				}
+			case "hitrun":
+				if len(ws) < 4 {
+					return nil, fmt.Errorf("bad step %q", line)
+				}
+				st.Node, _ = strconv.Atoi(ws[2])
+				if st.Idx, err = parseInts(ws[3]); err != nil {
 					return nil, err
 				}
 			case "connect", "serve", "close", "stall":
